@@ -8,7 +8,9 @@ C02 driver.  Case grammar and observed form: see harness/src/c02.rs.
 response transport plan → `Call.clientReceive`, rendered.
 `verdict`: `Spec.Call.handlerOk` / `Spec.Call.clientOk` evaluated on the OBSERVED tokens, for
 every case inside the property's contract (matching shapes, decodable messages, error statuses
-that are errors, no compression header in user metadata); `never-hangs-or-panics` for all.
+that are errors); `never-hangs-or-panics` for all.  User metadata named `grpc-encoding` is NOT
+excluded: tonic lets it onto the wire and the peer refuses the call — the verdict fails on such
+cases and known_findings.json lists them (C02-F1).
 -/
 namespace DriverC02
 open Proto Call
@@ -239,19 +241,17 @@ def pObsClient : P (Spec.Call.Saw Bytes)
 
 def specSt (s : StSpec) : Spec.Call.St := ⟨s.code, s.msg, s.details, s.md⟩
 
-def hasEncodingName (m : HMap) : Bool := m.any (fun e => e.1 == HMap.name "grpc-encoding")
-
 def decodable (m : Bytes) : Bool := m.head? != some 255
 
-def stInScope (s : StSpec) : Bool := s.code != 0 && s.code ≤ 16 && Utf8.valid s.msg && !hasEncodingName s.md
+def stInScope (s : StSpec) : Bool := s.code != 0 && s.code ≤ 16 && Utf8.valid s.msg
 
 /-- the request side is inside the property's contract -/
 def reqInScope (c : Case) : Bool :=
-  !hasEncodingName c.rqMd && c.rq.msgs.all decodable && (c.srvReqStream || c.rq.msgs.length == 1)
+  c.rq.msgs.all decodable && (c.srvReqStream || c.rq.msgs.length == 1)
 
 /-- the response side is inside the property's contract -/
 def respInScope (c : Case) : Bool :=
-  c.srvRespStream == c.cliRespStream && !hasEncodingName c.initMd && c.body.msgs.all decodable &&
+  c.srvRespStream == c.cliRespStream && c.body.msgs.all decodable &&
   (match c.early with | some s => stInScope s | none => true) &&
   (match c.fin with | some s => stInScope s | none => true) &&
   (c.srvRespStream || (c.body.msgs.length == 1 && c.fin.isNone))
